@@ -345,7 +345,7 @@ pub open spec fn stream_full_post<T: DeserializeInner>(row: HdrR, s: Seq<u8>, r:
 //@end
 
 //@item epserde/src/deser/mod.rs props=C01,C02,C10 name=Deserialize::blanket <<impl<T: TypeHash + AlignHash + DeserializeInner> Deserialize for T {>>
-//@  replace <<check_header::<Self>>> <<check_header::<Self, _>>>
+//@  replace_opt <<check_header::<Self>>> <<check_header::<Self, _>>>
 //@  body_prefix
 //@|    open spec fn row(s: Seq<u8>) -> HdrR { hdr_table::<T>(s) }
 //@|    open spec fn row_err(row: HdrR, e: Error, unreliable: bool, slice: bool) -> bool { hdr_err_ok::<T>(row, e, unreliable, slice) }
@@ -504,7 +504,7 @@ pub proof fn lemma_fields_prefix(s0: Seq<u8>, f1: Seq<u8>, f2: Seq<u8>, f3: Seq<
 //@item epserde/src/ser/mod.rs props=C01,C06,C13 name=Serialize::blanket <<impl<T: SerializeInner> Serialize for T>>
 //@  replace <<Result<()>>> <<SResult<()>>>
 //@  replace <<backend.write(>> <<ww_write(backend, >>
-//@  replace <<write_header::<<Self as SerializeInner>::SerType>>> <<write_header::<<Self as SerializeInner>::SerType, _>>>
+//@  replace_opt <<write_header::<<Self as SerializeInner>::SerType>>> <<write_header::<<Self as SerializeInner>::SerType, _>>>
 //@  body_prefix
 //@|    open spec fn stream(&self) -> Seq<u8> {
 //@|        hdr_enc::<<T as SerializeInner>::SerType>() + self.enc(hdr_enc::<<T as SerializeInner>::SerType>().len())
